@@ -122,20 +122,34 @@ def _prune(parent, keep):
         ds = sorted((os.path.getmtime(os.path.join(parent, d)), d) for d in os.listdir(parent))
     except OSError:
         return
-    for _, d in ds[:-keep] if len(ds) > keep else []:
-        shutil.rmtree(os.path.join(parent, d), ignore_errors=True)
+    now = time.time()
+    for mt, d in ds[:-keep] if len(ds) > keep else []:
+        if now - mt > 6 * 3600:
+            shutil.rmtree(os.path.join(parent, d), ignore_errors=True)
+    for f in glob.glob(os.path.join(WORK, "*.lock")):
+        try:
+            if now - os.path.getmtime(f) > 24 * 3600:
+                os.remove(f)
+        except OSError:
+            pass
 
 
 def target_dir():
-    return os.path.join(WORK, "target-repo")
+    """One cargo target directory per analysed checkout path: cargo names the artifacts of
+    workspace members independently of the checkout's location, so two checkouts sharing a target
+    directory would overwrite each other's proc-macro."""
+    rp = repo_path()
+    if rp == "/repo":
+        return os.path.join(WORK, "target-repo")
+    return os.path.join(WORK, "target-" + hashlib.sha256(rp.encode()).hexdigest()[:10])
 
 
 def repo_facts(log=None):
     """Directory with the fact files of /repo's current working tree (built if necessary)."""
     repo = repo_path()
     ensure_mirdump()
-    with Lock("facts.lock"):
-        key = tree_key(repo)
+    key = tree_key(repo)
+    with Lock("facts-%s.lock" % key):
         out = os.path.join(WORK, "facts", key, "repo")
         stamp = os.path.join(out, "COMPLETE")
         if os.path.exists(stamp):
@@ -195,12 +209,20 @@ def repo_facts(log=None):
                                r.stdout)
         if "lexgen_so" not in arts or "lexgen_util_rmeta" not in arts:
             raise BuildFailure("proc-macro / runtime artifacts not reported by cargo", r.stdout)
+        # keep private copies: the target directory's files are overwritten by the next build of a
+        # different tree state, this fact base must keep describing *this* state
+        for k in ("lexgen_so", "lexgen_util_rmeta"):
+            dst = os.path.join(out, os.path.basename(arts[k]))
+            shutil.copy2(arts[k], dst)
+            arts[k] = dst
         arts["deps"] = os.path.join(tdir, "debug", "deps")
         with open(os.path.join(out, "ARTIFACTS"), "w") as f:
             json.dump(arts, f)
+        with open(os.path.join(out, "REPO_PATH"), "w") as f:
+            f.write(repo)
         with open(stamp, "w") as f:
             f.write("%.1f\n" % (time.time() - t0))
-        _prune(os.path.join(WORK, "facts"), 6)
+        _prune(os.path.join(WORK, "facts"), 12)
         return out
 
 
